@@ -38,8 +38,9 @@ from checks import _faults as F
 PROPERTY = "C24"
 LEVEL = "exploration"
 RULE = (
-    "config (pool class x reset_on_return rollback|commit|None|custom-listener x engine default isolation x sqlite mode) x 2-15 checkouts, each "
-    "{user conn|raw, isolation option, <=6 actions of w/begin/sp/sel/commit/rollback, ending close|exc|gc|invalidate|detach}. "
+    "config (pool class x reset_on_return rollback|commit|None|custom-listener x engine default isolation x skip_autocommit_rollback x sqlite mode) x 2-15 checkouts, each "
+    "{user conn|raw, isolation option, <=6 actions of w/begin/sp/sel/commit/rollback, ending close|exc|gc|invalidate|detach|ac_err (write, refused "
+    "execution_options(AUTOCOMMIT) inside the transaction, close)|ac_reconn (AUTOCOMMIT option, invalidate, transparent reconnect, write, close)}. "
     "Non-trivial: some checkout ends with a DBAPI transaction open or a changed isolation level and the SAME DBAPI connection is handed out by a later checkout; "
     "distinct = canonical JSON of the case"
 )
@@ -50,6 +51,8 @@ ASSUMPTIONS = [
     "a raw_connection() user does not change isolation_level / autocommit behind the pool's back",
     "with pool_reset_on_return=None the model expects carry-over (the property's exception clause); isolation level is still expected to be reset there only if a reset listener is installed",
     "PostgreSQL / MySQL: call-log level only (recording DBAPI; committed state derived by C23's _TxSim); dialect.default_isolation_level is preset by the harness because the recording engine skips initialize()",
+    "known finding excluded by construction and pinned: a Connection.commit() that fails at the DBAPI followed by close() returns the connection with its transaction open "
+    "(live: provoked with a SHARED lock held by a second sqlite3 connection -> SQLITE_BUSY)",
     "known finding excluded by construction and pinned: with an AUTOCOMMIT engine default, a per-connection isolation level is not restored on return (only the autocommit knob is)",
     "reference model in checks/c24.py is trusted",
 ]
@@ -67,6 +70,9 @@ class _Boom(Exception):
     pass
 
 
+SIG_FAILED_COMMIT = "C24/failed-commit/close-skips-rollback-and-reset"
+
+
 # ------------------------------------------------------------------ backends
 class _Live:
     def __init__(self, cfg, ctx):
@@ -80,6 +86,8 @@ class _Live:
             kw.update(pool_size=cfg["size"], max_overflow=0)
         if cfg["default_iso"]:
             kw["isolation_level"] = cfg["default_iso"]
+        if cfg.get("skip_ac_rb"):
+            kw["skip_autocommit_rollback"] = True
         if cfg["mode"] == "legacy":
             kw["connect_args"] = {"autocommit": __import__("sqlite3").LEGACY_TRANSACTION_CONTROL, "timeout": 0.2}
         self.eng = sautil.file_engine(ctx, **kw)
@@ -113,6 +121,23 @@ class _Live:
 
     def problems(self):
         return []
+
+    def fail_commit(self, conn):
+        """make Connection.commit() fail at the DBAPI: a second connection holds a SHARED lock (SQLITE_BUSY)"""
+        import sqlalchemy as sa
+        from vf import sautil
+
+        reader = sautil.raw_connect(self.eng._vf_path)
+        reader.execute("BEGIN")
+        reader.execute("select x from t").fetchall()
+        try:
+            conn.commit()
+        except sa.exc.DBAPIError:
+            return True
+        finally:
+            reader.execute("ROLLBACK")
+            reader.close()
+        return False
 
     def close(self):
         from vf import sautil
@@ -177,6 +202,8 @@ class _Rec:
             kw.update(pool_size=cfg["size"], max_overflow=0)
         if cfg["default_iso"] == "AUTOCOMMIT":
             kw["isolation_level"] = "AUTOCOMMIT"
+        if cfg.get("skip_ac_rb"):
+            kw["skip_autocommit_rollback"] = True
         url = "postgresql+psycopg2://u:p@h/d" if flavour == "pg" else "mysql+pymysql://u:p@h/d"
         self.eng = sa.create_engine(url, creator=creator, _initialize=False, **kw)
         self.default_name = "READ COMMITTED" if flavour == "pg" else "REPEATABLE READ"
@@ -250,6 +277,16 @@ class _Rec:
                 return False
         return True
 
+    def fail_commit(self, conn):
+        import sqlalchemy as sa
+
+        self.db.plan[("commit", self.db.counts["commit"])] = "error"
+        try:
+            conn.commit()
+        except (sa.exc.DBAPIError, F.fakedb.Error):
+            return True
+        return False
+
     def problems(self):
         self._pump()
         # savepoint names are per Connection: with reset None a carried-over transaction may legitimately see the same name again
@@ -283,6 +320,7 @@ class _Run:
         self.pinned = bool(case.get("pinned"))
         self.excluded = []
         self.last_iso = {}
+        self.failed_commit_keys = set()
         if self.reset == "custom":
             event.listen(b.eng, "reset", self._custom_reset)
 
@@ -299,8 +337,19 @@ class _Run:
 
     # ---- the oracle at checkout
     def at_checkout(self, raw, n):
+        key = self.b.key(raw)
+        if key in self.failed_commit_keys:
+            self.failed_commit_keys.discard(key)
+            try:
+                self._at_checkout(raw, n, key)
+            except Violation as v:
+                raise Violation(SIG_FAILED_COMMIT, f"[{v.signature}] previous user: commit() failed at the DBAPI, then Connection.close(); {v.message}",
+                                observed=v.observed, expected=v.expected) from v
+            return
+        self._at_checkout(raw, n, key)
+
+    def _at_checkout(self, raw, n, key):
         b = self.b
-        key = b.key(raw)
         exp_pending = self.pending.get(key, set())
         exp_open = self.open_txn.get(key, False)
         if key in self.left_dirty:
@@ -419,6 +468,28 @@ class _Run:
                     conn.exec_driver_sql("select x from t").fetchall()
                 elif self.b.name == "live":
                     raw.execute("select x from t").fetchall()
+            elif a == "cf" and not (self.pinned and kind == "conn"):
+                # known finding: a commit() that fails at the DBAPI leaves the RootTransaction attached but inactive; close() then
+                # neither rolls back nor lets the pool reset.  Only exercised by the pinned replay.
+                self.excluded.append("Connection.commit() failing at the DBAPI before close() (known finding: connection returned with its transaction open)")
+                continue
+            elif a == "cf":
+                self.tok += 1
+                conn.exec_driver_sql(f"insert into t values ({self.tok})")
+                if not self.b.fail_commit(conn):
+                    raise Violation("C24/harness/commit-did-not-fail", f"could not make commit() fail; {self.T()}")
+                # the property's expectation: close() releases everything, the next user finds a clean connection
+                pend = set()
+                dml_in_txn = False
+                self.failed_commit_keys.add(key)
+                self.cls.add("commit-failed-then-close")
+                conn.close()
+                try:
+                    self._finish_checkout(n, key, kind, "close(after failed commit)", pend, dml_in_txn, True, False)
+                except __import__("sqlite3").OperationalError as e:
+                    raise Violation(SIG_FAILED_COMMIT, f"commit() failed at the DBAPI, Connection.close() returned the connection to the pool; the idle pooled connection still holds "
+                                    f"its write lock: an independent connection cannot even read ({e}); {self.T()}", observed=str(e), expected="connection rolled back on close()")
+                return
             elif a in ("commit", "rollback"):
                 if kind == "conn":
                     getattr(conn, a)()
@@ -434,6 +505,20 @@ class _Run:
                 sps = 0
         # ---- ending
         end = co["end"]
+        if end in ("ac_err", "ac_reconn") and kind != "conn":
+            end = "close"
+        if end == "ac_reconn" and (self.b.name == "live" and not self.b.legacy):
+            end = "close"  # driver-level AUTOCOMMIT is documented as incompatible with the non-legacy pysqlite mode
+        if end == "ac_reconn":
+            if conn.get_transaction() is not None:
+                conn.rollback()
+                pend, dml_in_txn = set(), False
+            if dml_in_txn:
+                end = "close"  # inherited DBAPI transaction (reset None): switching the driver to autocommit there is not modelled
+        if end == "ac_err":
+            return self._end_ac_err(n, co, conn, key, pend, autocommit, iso_changed)
+        if end == "ac_reconn":
+            return self._end_ac_reconn(n, co, conn, key)
         dirty = dml_in_txn or iso_changed
         if dirty:
             self.cls.add("ends-dirty")
@@ -490,8 +575,11 @@ class _Run:
                 pend, dml_in_txn = self._pool_reset(pend, dml_in_txn, reset, gone)
         else:
             pend, dml_in_txn = self._pool_reset(pend, dml_in_txn, reset, gone)
+        self._finish_checkout(n, key, kind, end, pend, dml_in_txn, dirty, gone)
+
+    def _finish_checkout(self, n, key, kind, end, pend, dml_in_txn, dirty, gone):
         if gone:
-            pend, dml_in_txn, iso_changed = set(), False, False
+            pend, dml_in_txn = set(), False
         if pend:
             self.pending[key] = pend
         if dml_in_txn:
@@ -504,6 +592,56 @@ class _Run:
         if got != self.committed:
             raise Violation(f"C24/{self.b.name}/committed-after-return", f"after checkout #{n} returned ({kind}/{end}, reset_on_return={self.reset}): independent connection sees "
                             f"{sorted(got)}, model committed={sorted(self.committed)}; {self.T()}", observed=sorted(got), expected=sorted(self.committed))
+
+    def _end_ac_err(self, n, co, conn, key, pend, autocommit, iso_changed):
+        """(i) a write autobegins, then execution_options(isolation_level='AUTOCOMMIT') is refused because a transaction is open
+        (the Connection's recorded options may nevertheless say AUTOCOMMIT now), then close()"""
+        if not (autocommit and self.b.name != "live"):
+            self.tok += 1
+            conn.exec_driver_sql(f"insert into t values ({self.tok})")
+            if autocommit:
+                self.committed.add(self.tok)
+            else:
+                pend.add(self.tok)
+        else:
+            conn.exec_driver_sql("select x from t").fetchall()
+        try:
+            conn.execution_options(isolation_level="AUTOCOMMIT")
+        except self.sa.exc.InvalidRequestError:
+            pass
+        else:
+            raise Violation("C24/ac_err/isolation-change-inside-transaction-accepted", f"execution_options(isolation_level=...) with a transaction in progress did not raise; {self.T()}")
+        conn.close()  # the Connection holds a Transaction: its own rollback releases everything, whatever reset_on_return says
+        self.cls.add("end:conn:ac_err")
+        self.cls.add("ends-dirty")
+        self._finish_checkout(n, key, "conn", "ac_err", set(), False, True, False)
+
+    def _end_ac_reconn(self, n, co, conn, key):
+        """(ii) AUTOCOMMIT option set, connection invalidated, the Connection transparently reconnects onto a fresh DBAPI connection
+        at the ENGINE default isolation; a write there is transactional unless the engine default is AUTOCOMMIT; then close()"""
+        conn.execution_options(isolation_level="AUTOCOMMIT")
+        conn.invalidate()
+        self.left_dirty.discard(key)
+        actual_autocommit = self.cfg["default_iso"] == "AUTOCOMMIT"
+        if actual_autocommit and self.b.name != "live":
+            conn.exec_driver_sql("select x from t").fetchall()
+            wrote = None
+        else:
+            self.tok += 1
+            wrote = self.tok
+            conn.exec_driver_sql(f"insert into t values ({wrote})")
+        raw2 = conn.connection.dbapi_connection
+        key2 = self.b.key(raw2)
+        self.pending.pop(key2, None)  # whatever was carried over on it (reset None) goes with the Connection's own rollback below
+        self.open_txn.pop(key2, None)
+        self.last_iso[key2] = None
+        if wrote is not None and actual_autocommit:
+            self.committed.add(wrote)
+        conn.close()
+        self.cls.add("end:conn:ac_reconn")
+        if not actual_autocommit:
+            self.cls.add("ends-dirty")
+        self._finish_checkout(n, key2, "conn", "ac_reconn", set(), False, not actual_autocommit, False)
 
     def _conn_had_txn(self, co, autocommit):
         """did the Connection object itself hold a Transaction at the end (autobegin by any execute / begin / savepoint)?"""
@@ -547,6 +685,7 @@ def _check(case, ctx, make_backend):
                 classes.add("pool:" + cfg["pool"])
                 classes.add(f"reset:{cfg['reset']}")
                 classes.add(f"mode:{cfg['mode']}")
+                classes.add(f"skip_autocommit_rollback:{bool(cfg.get('skip_ac_rb'))}")
                 if run.nontrivial:
                     classes.add("NONTRIVIAL")
                 ctx.note(case, run.nontrivial, classes=sorted(classes))
@@ -571,12 +710,13 @@ def check_rec_mysql(case, ctx):
 # ------------------------------------------------------------------ generators
 def _cfgs(live):
     return st.builds(
-        lambda pool, size, reset, default_iso, mode: {"pool": pool, "size": size, "reset": reset, "default_iso": default_iso, "mode": mode},
+        lambda pool, size, reset, default_iso, mode, skip: {"pool": pool, "size": size, "reset": reset, "default_iso": default_iso, "mode": mode, "skip_ac_rb": skip},
         st.sampled_from(POOLS),
         st.integers(1, 2),
         st.sampled_from(["rollback", "rollback", "commit", None, None, "custom"]),
         st.sampled_from([None, None, None, "READ UNCOMMITTED", "AUTOCOMMIT"] if live else [None, None, "AUTOCOMMIT"]),
         st.sampled_from(["legacy", "legacy", "nonlegacy"]) if live else st.just("rec"),
+        st.booleans(),
     )
 
 
@@ -593,8 +733,8 @@ def _checkouts(live):
         lambda user, iso, acts, end: {"user": user, "iso": iso, "acts": acts, "end": end},
         st.sampled_from(["conn", "conn", "raw"]),
         st.sampled_from(isos),
-        st.lists(st.sampled_from(["w", "w", "w", "begin", "sp", "sel", "commit", "rollback"]), min_size=0, max_size=6),
-        st.sampled_from(["close", "close", "gc", "gc", "exc", "invalidate", "detach"]),
+        st.lists(st.sampled_from(["w", "w", "w", "w", "begin", "begin", "sp", "sp", "sel", "sel", "commit", "commit", "rollback", "rollback", "cf"]), min_size=0, max_size=6),
+        st.sampled_from(["close", "close", "gc", "gc", "exc", "invalidate", "detach", "ac_err", "ac_err", "ac_reconn", "ac_reconn"]),
     )
     return st.lists(one, min_size=2, max_size=15)
 
